@@ -399,3 +399,71 @@ func genFoldUnary(w *World, res *CheckResult) {
 		delete(w.forceInline, "vm."+n)
 	}
 }
+
+// genConstExpr: (*constExpr).Exit on  f(lit)  with an integer literal whose
+// static type the checker may have set to the parameter's type: the argument
+// handed to the function at compile time is the value the compiled program
+// would push for that literal (compiler.IntegerNode) — otherwise the call
+// fails (or computes something else) only when ConstExpr is configured.
+func genConstExpr(w *World, res *CheckResult) {
+	fn := w.Func("optimizer.constExpr.Exit")
+	if fn == nil {
+		res.Obls = append(res.Obls, missingObl("optimizer.constExpr.Exit/exists", "function not found"))
+		return
+	}
+	res.Functions = append(res.Functions, "optimizer.constExpr.Exit")
+	lay := astLayout{w}
+	for _, lt := range foldLitTypes(w) {
+		cell := fmt.Sprintf("optimizer.constExpr[int-arg,%s]", lt.name)
+		a := Fresh("a", SBV(64))
+		want, ok := pushedInteger(w, a, lt.code)
+		if !ok {
+			res.Obls = append(res.Obls, missingObl(cell+"/post:arg-as-compiled", "compiler.IntegerNode did not produce a single push"))
+			continue
+		}
+		e := NewExec(w)
+		e.SafeMode = func(f *ssa.Function) string { return "panics" }
+		st := NewState()
+		e.paramMode = true
+		cv := e.havocValue(st, fn.Params[0].Type(), "c")
+		slot := e.havocValue(st, fn.Params[1].Type(), "node")
+		e.paramMode = false
+		st.Assume(Not(Eq(cv.One(), NilLoc)))
+		st.Assume(Not(Eq(slot.One(), NilLoc)))
+		fnode, args, lit := FreshPre(st, "call"), FreshPre(st, "args"), FreshPre(st, "lit")
+		objs := []*Term{fnode, args, lit, slot.One(), cv.One()}
+		for i := range objs {
+			for j := i + 1; j < len(objs); j++ {
+				AssumeDistinctObjs(st, objs[i], objs[j])
+			}
+		}
+		st.Store(slot.One(), lay.ptrVal("FunctionNode", fnode))
+		ao := lay.off("FunctionNode", "Arguments")
+		st.Store(LocField(fnode, ao), args)
+		st.Store(LocField(fnode, ao+1), BV64(1))
+		st.Store(LocField(fnode, ao+2), BV64(1))
+		st.Store(args, lay.ptrVal("IntegerNode", lit))
+		st.Store(LocField(lit, lay.off("IntegerNode", "Value")), a)
+		st.Store(LocField(lit, 2), lt.code)
+		calls := 0
+		e.CallHook = func(e *Exec, st *State, fr *Frame, cc *ssa.CallCommon, callee *ssa.Function, cargs []*Value, k func(*State, []*Value)) bool {
+			// the argument vector is filled in a loop (cut): the obligation is placed where an element is made
+			if callee.String() == "reflect.ValueOf" && len(cargs) == 1 && shortName(fr.fn) == "optimizer.constExpr.Exit" {
+				calls++
+				e.AddVC(cell+"/post:arg-as-compiled", "post", fn.String(), st, Not(Eq(cargs[0].One(), want)),
+					"the literal is handed to the function as the value the compiled program would push for it (its static numeric kind)")
+			}
+			return false
+		}
+		e.Run(fn, []*Value{cv, slot}, st, w.Contracts["optimizer.constExpr.Exit"])
+		if calls == 0 {
+			res.Obls = append(res.Obls, missingObl(cell+"/post:arg-as-compiled", "no path of constExpr.Exit calls the function"))
+		}
+		for _, o := range e.obls {
+			if strings.HasPrefix(o.Name, cell+"/") {
+				o.Meta = map[string]string{"type": lt.name}
+				res.Obls = append(res.Obls, o)
+			}
+		}
+	}
+}
